@@ -181,6 +181,7 @@ pub struct Interp<F: Family> {
     pub ops_run: u64,
     pub op_hist: HashMap<&'static str, u64>,
     pub stats: HashMap<String, u64>,
+    pub alloc_base: (i64, i64, u64, u64),
 }
 
 pub fn render_dump<F: Family>(w: &mut F::W) -> String {
@@ -321,6 +322,7 @@ impl<F: Family> Interp<F> {
             ops_run: 0,
             op_hist: HashMap::new(),
             stats: HashMap::new(),
+            alloc_base: (0, 0, 0, 0),
         }
     }
 
@@ -342,6 +344,7 @@ impl<F: Family> Interp<F> {
             i.clear();
         }
         reset_ledger();
+        self.alloc_base = crate::alloc_audit::snapshot();
         let l = format!("case {}", name);
         self.line(&l);
         let l = format!("registry {} {}", F::N, F::KINDS);
@@ -360,6 +363,22 @@ impl<F: Family> Interp<F> {
         let live = live_count();
         if live != 0 {
             let l = format!("X harness case={} oracle=ledger-leak live-values-after-all-worlds-dropped={}", self.case_name, live);
+            self.line(&l);
+        }
+        // allocator audit: everything obtained while the library ran is returned once every world
+        // is dropped; no layout mismatch, no double free
+        let now = crate::alloc_audit::snapshot();
+        let b = self.alloc_base;
+        if now.0 != b.0 || now.1 != b.1 {
+            let l = format!("X harness case={} oracle=alloc leak: {} blocks / {} bytes obtained during library calls are still allocated after every world was dropped", self.case_name, now.0 - b.0, now.1 - b.1);
+            self.line(&l);
+        }
+        if now.2 != b.2 {
+            let l = format!("X harness case={} oracle=alloc {} deallocations/reallocations with a size or alignment different from the allocation's", self.case_name, now.2 - b.2);
+            self.line(&l);
+        }
+        if now.3 != b.3 {
+            let l = format!("X harness case={} oracle=alloc {} double frees", self.case_name, now.3 - b.3);
             self.line(&l);
         }
         self.flush();
@@ -396,7 +415,9 @@ impl<F: Family> Interp<F> {
         self.flush();
         self.ops_run += 1;
         take_drops();
+        let was = crate::alloc_audit::set_in_lib(true);
         let result = catch_unwind(AssertUnwindSafe(|| self.exec_inner(w, op)));
+        crate::alloc_audit::set_in_lib(was);
         let drops = take_drops();
         let r = match result {
             Ok(Some(mut r)) => {
@@ -447,7 +468,7 @@ impl<F: Family> Interp<F> {
                 let old = self.worlds[w].take();
                 drop(old);
                 self.worlds[w] = Some(F::new_world(res));
-                self.issued[w].clear();
+                no_lib(|| self.issued[w].clear());
                 return Some("ok drops=@".into());
             }
             Op::Clone { src, e } => {
@@ -462,7 +483,7 @@ impl<F: Family> Interp<F> {
                 let old = self.worlds[w].take();
                 drop(old);
                 self.worlds[w] = Some(c);
-                self.issued[w] = self.issued[*src].clone();
+                no_lib(|| self.issued[w] = self.issued[*src].clone());
                 return Some("ok drops=@".into());
             }
             Op::CloneFrom { src, e } => {
@@ -475,9 +496,11 @@ impl<F: Family> Interp<F> {
                 EPOCH.store(*e, Ordering::SeqCst);
                 let (dst, srcw) = pair_mut(&mut self.worlds, w, *src);
                 F::clone_from(dst.as_mut().unwrap(), srcw.as_ref().unwrap());
-                let mut merged = self.issued[*src].clone();
-                merged.extend(self.issued[w].iter().cloned());
-                self.issued[w] = merged;
+                no_lib(|| {
+                    let mut merged = self.issued[*src].clone();
+                    merged.extend(self.issued[w].iter().cloned());
+                    self.issued[w] = merged;
+                });
                 return Some("ok drops=@".into());
             }
             Op::Eq(o) => {
@@ -520,7 +543,7 @@ impl<F: Family> Interp<F> {
                 }
                 let id = F::insert(world, shape, ids)?;
                 let p = id.verif_parts();
-                self.issued[w].push(p);
+                no_lib(|| self.issued[w].push(p));
                 Some(format!("ok id={}", fmt_id(p)))
             }
             Op::Extend { shape, rows } => {
@@ -529,7 +552,7 @@ impl<F: Family> Interp<F> {
                 }
                 let ids = F::extend(world, shape, rows)?;
                 let ps: Vec<Id> = ids.iter().map(|i| i.verif_parts()).collect();
-                self.issued[w].extend(ps.iter().cloned());
+                no_lib(|| self.issued[w].extend(ps.iter().cloned()));
                 Some(format!("ok ids={}", ps.iter().map(|p| fmt_id(*p)).collect::<Vec<_>>().join(",")))
             }
             Op::Remove(id) => {
@@ -676,9 +699,45 @@ pub fn run_case<F: Family>(it: &mut Interp<F>, name: &str, seed: u64, cfg: &GenC
                 iss[g.rng.below(iss.len() as u64) as usize]
             }
         };
+        // "twin" probe (C16/C10): make `o` a copy of `w`, change one value of `w`, compare
+        if multi && g.rng.below(100) < 3 {
+            let o = (w + 1 + g.rng.below(2) as usize) % 3;
+            let rows = F::rows(it.worlds[w].as_mut().unwrap());
+            let cand: Vec<(Id, usize)> = rows.iter().flat_map(|(id, vals)| vals.iter().enumerate().filter(|(c, v)| v.is_some() && F::KINDS.as_bytes()[*c] != b'z').map(move |(c, _)| (*id, c))).collect();
+            if !cand.is_empty() {
+                let (id, c) = cand[g.rng.below(cand.len() as u64) as usize];
+                let e = g.epoch();
+                if g.rng.below(2) == 0 || !serde_on {
+                    it.exec(o, &Op::Clone { src: w, e });
+                } else {
+                    it.exec(o, &Op::Serde { src: w, rows: g.rng.below(2) == 0, e, front: "tokens".into(), mutation: vec![] });
+                }
+                it.exec(w, &Op::Eq(o));
+                let v = g.val();
+                it.exec(w, &Op::Write(id, c, v));
+                it.exec(w, &Op::Eq(o));
+                it.bump("twin-probe");
+                continue;
+            }
+        }
         let query_on = cfg.profile.contains("query");
         let r = if query_on && g.rng.below(100) < 45 { 200 + g.rng.below(100) } else { g.rng.below(130) };
-        let op = if r >= 200 {
+        let res_on = cfg.profile.contains("res") && nres > 0;
+        let op = if res_on && g.rng.below(100) < 25 {
+            if g.rng.below(3) == 0 {
+                Op::Raw("res".into(), vec!["set".into(), g.rng.below(nres as u64).to_string(), g.val().to_string()])
+            } else {
+                let k = g.rng.below(nres as u64 + 1) as usize;
+                let mut ps: Vec<usize> = (0..nres).collect();
+                for i in 0..ps.len() { let j = i + g.rng.below((ps.len() - i) as u64) as usize; ps.swap(i, j); }
+                let mut any_mut = false;
+                let d: Vec<String> = ps[..k].iter().map(|p| { let m = g.rng.below(2) == 0; any_mut |= m; format!("{}{}", p, if m { "m" } else { "r" }) }).collect();
+                if k == 3 && (ps[..3] == [1, 2, 0] || ps[..3] == [2, 0, 1]) { ps.swap(0, 1); }
+                let d: Vec<String> = ps[..k].iter().zip(d.iter()).map(|(p, old)| format!("{}{}", p, &old[old.len() - 1..])).collect();
+                let e = if any_mut && g.rng.below(2) == 0 { g.epoch().to_string() } else { "-".to_string() };
+                Op::Raw("res".into(), vec!["view".into(), if d.is_empty() { "-".into() } else { d.join(",") }, e])
+            }
+        } else if r >= 200 {
             let r = r - 200;
             if r < 60 {
                 let qs = F::queries();
